@@ -21,7 +21,6 @@ from typing_extensions import Self
 
 from xdsl.utils.exceptions import ArgSpecParseError
 from xdsl.utils.lexer import Input, Span, Token
-from xdsl.utils.mlir_lexer import StringLiteral
 
 ParameterType = str | int | bool | float
 """
@@ -31,6 +30,37 @@ ParameterListType = tuple[ParameterType, ...]
 """
 The `ArgSpec` holds a dictionary from strings to lists of parameters.
 """
+
+_STRING_ESCAPES = {
+    "\\": "\\\\",
+    '"': '\\"',
+    "\n": "\\n",
+    "\f": "\\f",
+    "\v": "\\v",
+    "\t": "\\t",
+    "\r": "\\r",
+}
+"""
+The characters that are escaped when printing a string parameter. These are exactly the
+escape sequences accepted by the `STRING_LIT` rule of the pipeline lexer.
+"""
+_STRING_UNESCAPES = {escaped[1]: char for char, escaped in _STRING_ESCAPES.items()}
+
+
+def _escape_string(string: str) -> str:
+    """
+    Escape a string so that it can be printed between quotes and lexed as `STRING_LIT`.
+    """
+    return "".join(_STRING_ESCAPES.get(char, char) for char in string)
+
+
+def _unescape_string(string: str) -> str:
+    """
+    Inverse of `_escape_string`, takes the text between the quotes of a `STRING_LIT`.
+    """
+    return re.sub(
+        r"\\(.)", lambda match: _STRING_UNESCAPES[match.group(1)], string, flags=re.S
+    )
 
 
 @dataclass(eq=True, frozen=True)
@@ -63,7 +93,7 @@ class ArgSpec:
             case bool():
                 return str(arg).lower()
             case str():
-                return f'"{arg}"'
+                return f'"{_escape_string(arg)}"'
             case int():
                 return str(arg)
             case float():
@@ -536,9 +566,7 @@ def _parse_parameter_value_element(lexer: PipelineLexer) -> ParameterType:
     match lexer.lex():
         case Token(kind=SpecTokenKind.STRING_LIT, span=span):
             # string literals are converted to unescaped strings
-            str_token = StringLiteral.from_span(span)
-            assert str_token is not None
-            return str_token.string_contents
+            return _unescape_string(span.text[1:-1])
         case Token(kind=SpecTokenKind.NUMBER, span=span):
             # NUMBER is both float and int
             # if the token contains a `.` it's a float
